@@ -102,7 +102,10 @@ func damageSome(w *c04my.World, t proxyrig.TableSpec, rng *gen.Rand, damaged map
 
 // mixedReads: the owner selects several typed columns in one statement, over rows where only some values are damaged.
 func mixedReads(r *ev.Run, w *c04my.World, c *proxyrig.MyClient, t proxyrig.TableSpec, damaged map[int]map[int]bool, rng *gen.Rand, history []string, sidx int) bool {
-	var all, noError []int
+	intCipher := func(col proxyrig.ColSpec) bool {
+		return (col.DataType == "int32" || col.DataType == "int64") && policyOf(col) == "ciphertext"
+	}
+	var all, noError, noIntCipher, neither []int
 	for ci, col := range t.Cols {
 		if !col.Configured() {
 			continue
@@ -110,6 +113,12 @@ func mixedReads(r *ev.Run, w *c04my.World, c *proxyrig.MyClient, t proxyrig.Tabl
 		all = append(all, ci)
 		if policyOf(col) != "error" {
 			noError = append(noError, ci)
+		}
+		if !intCipher(col) {
+			noIntCipher = append(noIntCipher, ci)
+		}
+		if policyOf(col) != "error" && !intCipher(col) {
+			neither = append(neither, ci)
 		}
 	}
 	shuffled := func(in []int) []int {
@@ -121,9 +130,15 @@ func mixedReads(r *ev.Run, w *c04my.World, c *proxyrig.MyClient, t proxyrig.Tabl
 		name string
 		cols []int
 	}
-	vs := []variant{{"all-columns/table-order", all}, {"all-columns/shuffled", shuffled(all)}}
-	if len(noError) != len(all) && len(noError) > 0 {
-		vs = append(vs, variant{"without-error-policy-columns/table-order", noError}, variant{"without-error-policy-columns/shuffled", shuffled(noError)})
+	var vs []variant
+	seen := map[string]bool{}
+	for _, cand := range []variant{{"all-columns", all}, {"without-error-policy-columns", noError}, {"without-integer-ciphertext-columns", noIntCipher}, {"without-error-policy-and-integer-ciphertext-columns", neither}} {
+		k := fmt.Sprint(cand.cols)
+		if seen[k] || len(cand.cols) < 2 {
+			continue
+		}
+		seen[k] = true
+		vs = append(vs, variant{cand.name + "/table-order", cand.cols}, variant{cand.name + "/shuffled", shuffled(cand.cols)})
 	}
 	for _, v := range vs {
 		if len(v.cols) < 2 {
@@ -227,6 +242,44 @@ func mixedRead(r *ev.Run, w *c04my.World, c *proxyrig.MyClient, t proxyrig.Table
 		r.Inconclusive("watchdog while reading (mysql c19 mixed read)")
 		return false
 	}
+	// One case cannot be expressed on the wire at all: in the binary protocol a column has ONE description for all rows, and an
+	// integer value (fixed-width) and its ciphertext fallback (length-encoded string) need different ones. When a statement
+	// selects an int32/int64 column with policy ciphertext that holds both revealed and unrevealable rows, everything that goes
+	// wrong in that result set (rows lost, neighbouring fields misread) is one finding, reported under one signature.
+	var ambiguous *proxyrig.ColSpec
+	if binProto {
+		for _, ci := range cols {
+			col := t.Cols[ci]
+			if (col.DataType == "int32" || col.DataType == "int64") && policyOf(col) == "ciphertext" {
+				rev, unrev := false, false
+				for ri := range srows {
+					rev = rev || revealable(ri, ci)
+					unrev = unrev || unrevealable(ri, ci)
+				}
+				if rev && unrev && ambiguous == nil {
+					ambiguous = &t.Cols[ci]
+				}
+			}
+		}
+	}
+	var problems []string
+	report := func(sg string, det interface{}) {
+		if ambiguous != nil {
+			problems = append(problems, sg)
+			return
+		}
+		r.Violation(sg, det)
+	}
+	defer func() {
+		if ambiguous == nil {
+			return
+		}
+		if len(problems) > 0 {
+			r.Violation(fmt.Sprintf("mysql mixed-outcome rows: integer column with policy ciphertext holds revealed and unrevealable rows, binary result set is not delivered intact: type=%s kind=%s/%s", ambiguous.DataType, ambiguous.Kind, ambiguous.Envelope), detail(map[string]interface{}{"column": ambiguous.Name, "problems": problems}))
+		} else {
+			r.Count("mysql_mixed_binary_integer_ciphertext_fallback_delivered_intact", 1)
+		}
+	}()
 	// does an error-policy column of this statement hold an unrevealable value? then the statement must fail
 	var errCol *proxyrig.ColSpec
 	errPos := ""
@@ -240,11 +293,11 @@ func mixedRead(r *ev.Run, w *c04my.World, c *proxyrig.MyClient, t proxyrig.Table
 	r.Count("mysql_mixed_reads_"+fmtName, 1)
 	if errCol != nil {
 		if res.Err == nil {
-			r.Violation(sig("policy error: no error reported for the statement", *errCol, errPos), detail(nil))
+			report(sig("policy error: no error reported for the statement", *errCol, errPos), detail(nil))
 			return true
 		}
 		if res.ErrNo == 0 {
-			r.Violation(sig("policy error: connection broke instead of an error response", *errCol, errPos), detail(nil))
+			report(sig("policy error: connection broke instead of an error response", *errCol, errPos), detail(nil))
 			return false
 		}
 		for k := range res.Rows {
@@ -253,7 +306,7 @@ func mixedRead(r *ev.Run, w *c04my.World, c *proxyrig.MyClient, t proxyrig.Table
 			}
 			for kk, ci := range cols {
 				if policyOf(t.Cols[ci]) == "error" && unrevealable(order[k], ci) {
-					r.Violation(sig("policy error: a row with an unrevealable value was delivered", t.Cols[ci], position(order[k], kk)), detail(map[string]interface{}{"row": k}))
+					report(sig("policy error: a row with an unrevealable value was delivered", t.Cols[ci], position(order[k], kk)), detail(map[string]interface{}{"row": k}))
 				}
 			}
 		}
@@ -263,7 +316,7 @@ func mixedRead(r *ev.Run, w *c04my.World, c *proxyrig.MyClient, t proxyrig.Table
 			return false
 		}
 		if probe.Err != nil || len(probe.Rows) != len(srows) {
-			r.Violation(sig("policy error: session out of step after the error response", *errCol, errPos), detail(map[string]interface{}{"probe_error": fmt.Sprint(probe.Err), "probe_rows": len(probe.Rows)}))
+			report(sig("policy error: session out of step after the error response", *errCol, errPos), detail(map[string]interface{}{"probe_error": fmt.Sprint(probe.Err), "probe_rows": len(probe.Rows)}))
 			return false
 		}
 		r.Count("mysql_mixed_error_statements_checked", 1)
@@ -274,22 +327,22 @@ func mixedRead(r *ev.Run, w *c04my.World, c *proxyrig.MyClient, t proxyrig.Table
 		return true
 	}
 	if res.Broken {
-		r.Violation(fmt.Sprintf("mysql mixed-outcome row: connection broke while reading: variant=%s protocol=%s", vname, fmtName), detail(nil))
+		report(fmt.Sprintf("mysql mixed-outcome row: connection broke while reading: variant=%s protocol=%s", vname, fmtName), detail(nil))
 		return false
 	}
 	if res.Err != nil {
-		r.Violation(fmt.Sprintf("mysql mixed-outcome row: unexpected error response: variant=%s protocol=%s", vname, fmtName), detail(nil))
+		report(fmt.Sprintf("mysql mixed-outcome row: unexpected error response: variant=%s protocol=%s", vname, fmtName), detail(nil))
 		return true
 	}
 	if len(res.Rows) != len(srows) {
-		r.Violation(fmt.Sprintf("mysql mixed-outcome row: row count differs: variant=%s protocol=%s", vname, fmtName), detail(map[string]interface{}{"got": len(res.Rows), "want": len(srows)}))
+		report(fmt.Sprintf("mysql mixed-outcome row: row count differs: variant=%s protocol=%s", vname, fmtName), detail(map[string]interface{}{"got": len(res.Rows), "want": len(srows)}))
 		return true
 	}
 	defs := lastColDefs(recv, len(cols)+1)
 	for k, row := range res.Rows {
 		ri := order[k]
 		if len(row) != len(cols)+1 {
-			r.Violation(fmt.Sprintf("mysql mixed-outcome row: field count differs: variant=%s protocol=%s", vname, fmtName), detail(nil))
+			report(fmt.Sprintf("mysql mixed-outcome row: field count differs: variant=%s protocol=%s", vname, fmtName), detail(nil))
 			return true
 		}
 		isMixed := false
@@ -312,12 +365,12 @@ func mixedRead(r *ev.Run, w *c04my.World, c *proxyrig.MyClient, t proxyrig.Table
 			switch {
 			case sv == nil:
 				if !got.Null {
-					r.Violation(sig("NULL did not stay NULL", col, pos), detail(map[string]interface{}{"row": k, "field": kk + 1, "got": got.String()}))
+					report(sig("NULL did not stay NULL", col, pos), detail(map[string]interface{}{"row": k, "field": kk + 1, "got": got.String()}))
 				}
 				continue
 			case len(svb) == 0:
 				if got.Null || len(got.B) != 0 {
-					r.Violation(sig("empty value did not stay empty", col, pos), detail(map[string]interface{}{"row": k, "field": kk + 1, "got": got.String()}))
+					report(sig("empty value did not stay empty", col, pos), detail(map[string]interface{}{"row": k, "field": kk + 1, "got": got.String()}))
 				}
 				continue
 			case !unrevealable(ri, ci):
@@ -326,7 +379,7 @@ func mixedRead(r *ev.Run, w *c04my.World, c *proxyrig.MyClient, t proxyrig.Table
 				// of this column fell back to ciphertext (policy ciphertext) the description is not judged, only the value
 				kindOK := got.Kind == wantKind(col.DataType, binProto) || (pol == "ciphertext" && len(damaged[ci]) > 0)
 				if got.Null || !bytes.Equal(got.B, want) || !kindOK {
-					r.Violation(sig("undamaged value not revealed in the declared type", col, pos), detail(map[string]interface{}{"row": k, "field": kk + 1, "got": got.String(), "want": ev.Hex(want)}))
+					report(sig("undamaged value not revealed in the declared type", col, pos), detail(map[string]interface{}{"row": k, "field": kk + 1, "got": got.String(), "want": ev.Hex(want)}))
 				} else {
 					good = true
 				}
@@ -336,19 +389,19 @@ func mixedRead(r *ev.Run, w *c04my.World, c *proxyrig.MyClient, t proxyrig.Table
 					if leaks(got.B, plainOf(rrows[ri][ci])) {
 						what = "policy ciphertext: plaintext (partly) delivered"
 					}
-					r.Violation(sig(what, col, pos), detail(map[string]interface{}{"row": k, "field": kk + 1, "got": got.String(), "stored": ev.Hex(svb)}))
+					report(sig(what, col, pos), detail(map[string]interface{}{"row": k, "field": kk + 1, "got": got.String(), "stored": ev.Hex(svb)}))
 				} else {
 					good = true
 				}
 			case pol == "default":
 				want := defaultBytes(col)
 				if got.Null || !bytes.Equal(got.B, want) || got.Kind != wantKind(col.DataType, binProto) {
-					r.Violation(sig("policy default_value: delivered field is not the configured default in the declared type", col, pos), detail(map[string]interface{}{"row": k, "field": kk + 1, "got": got.String(), "want": ev.Hex(want), "default": *col.Default}))
+					report(sig("policy default_value: delivered field is not the configured default in the declared type", col, pos), detail(map[string]interface{}{"row": k, "field": kk + 1, "got": got.String(), "want": ev.Hex(want), "default": *col.Default}))
 				} else {
 					good = true
 				}
 				if defs != nil && uint32(defs[kk+1].Type) != proxyrig.MyTypeID[col.DataType] {
-					r.Violation(sig("policy default_value: column not described as the declared type", col, pos), detail(map[string]interface{}{"type_id": defs[kk+1].Type, "want": proxyrig.MyTypeID[col.DataType]}))
+					report(sig("policy default_value: column not described as the declared type", col, pos), detail(map[string]interface{}{"type_id": defs[kk+1].Type, "want": proxyrig.MyTypeID[col.DataType]}))
 					good = false
 				}
 			}
